@@ -1160,6 +1160,40 @@ def link_strings_become_links_to_the_named_components(T0: float, T1: float, fuel
         assert gap.getDimension("mult") == 1
 
 
+@lemma(gen={"T0": (20.0, 400.0), "T1": (20.0, 700.0), "fuelOd": (0.1, 1.0), "gapW": (-0.05, 0.0), "cladW": (0.01, 0.2), "case": (0, 3)})
+def link_strings_become_links_also_for_a_gap_without_width(T0: float, T1: float, fuelOd: float, gapW: float, cladW: float, case: int):
+    """link_strings_become_links_to_the_named_components for a gap of ZERO or NEGATIVE width (clad id <= fuel od: the
+    components touch or overlap when cold - the gap's area is then <= 0, which armi admits for a void gap when hot).
+    Linking is about names, not sizes: the same statement holds.
+    Component.resolveLinkedDims (+ COMPONENT_LINK_REGEX, _DimensionLink.resolveDimension, getDimension) on a pin of fuel / gap / clad
+    where the gap is written `id: fuel.od`, `od: clad.id`: afterwards the gap's dimensions ARE the named dimensions of the named
+    components (hot and cold), numeric dimensions are untouched; a link to a component the block does not have and a name with
+    periods are refused.  Material: arbitrary expansion law (AnySolid); parameters: PMap."""
+    assume(fuelOd > 0 and gapW <= 0 and fuelOd + gapW > 0 and cladW > 0)
+    case = choose(case, 0, 3)
+    fuel = circle("fuel", T0, T1, fuelOd, 0.0, 1)
+    clad = circle("clad", T0, T1, fuelOd + gapW + cladW, fuelOd + gapW, 1)
+    idSpec = ("fuel.od", " fuel . od ", "pellet.od", "pel.let.od")[case]
+    gap = circle("gap", T0, T1, "clad.id", idSpec, 1)
+    comps = {"fuel": fuel, "gap": gap, "clad": clad}
+    try:
+        for c in (fuel, gap, clad):
+            c.resolveLinkedDims(comps)
+        ok = True
+    except (KeyError, ValueError):
+        ok = False
+    assert ok == (case <= 1), "unknown component / periods in the name refused"
+    if ok:
+        assert isinstance(gap.p.id, DimensionLink) and isinstance(gap.p.od, DimensionLink)
+        assert eq(gap.getDimension("id", cold=True), fuelOd) and eq(gap.getDimension("od", cold=True), fuelOd + gapW), "cold dimensions as linked"
+        try:
+            assert eq(gap.getDimension("id"), fuel.getDimension("od")) and eq(gap.getDimension("od"), clad.getDimension("id")), "hot ones follow"
+        except RuntimeError:
+            pass  # an expansion law with P(T1) = P(T0) at T1 != T0 is refused loudly by getThermalExpansionFactor: outside the statement (as in C03)
+        assert eq(fuel.getDimension("od", cold=True), fuelOd) and eq(clad.getDimension("id", cold=True), fuelOd + gapW), "numeric dimensions untouched"
+        assert gap.getDimension("mult") == 1
+
+
 class YAttr:
     """yamlize.Attribute as ComponentBlueprint._conformKwargs uses it: name, default, get_value(obj) = the object's value"""
 
